@@ -211,7 +211,7 @@ func (o *queryHandler) changeHandler(qc QueryChange) {
 		for _, rid := range rids {
 			if err := o.resourceEvent(rid, qc); err != nil {
 				o.errorf("QueryHandler encountered error generating events for resource %s: %s", rid, err)
-				return
+				continue
 			}
 		}
 	} else {
